@@ -7,7 +7,6 @@ From Coq Require Import ZArith.
 From V.model Require Import Base Deb822Lex Deb822Parse Grammar Lossy LossySpec Derive TypedDocs.
 From V.gen Require Import Structs_gen.
 From V.proofs Require Import BaseP Deb822LexP Deb822ParseP GrammarAccP LossyP LossyRtP DeriveP TypedCodecP TypedCanonP.
-Set Default Timeout 120.
 
 (* ------------------------------------------------------------------ what the readers show for a printed document *)
 Definition norm_pair (kv : str * str) : str * str := (fst kv, ll_norm (snd kv)).
